@@ -1,5 +1,5 @@
 #!/usr/bin/env python3
-"""seedtable.py: writes seeded/TABLE.md (rounds 2 to 7 of the independent seeded changes) from the
+"""seedtable.py: writes seeded/TABLE.md (rounds 2 to 8 of the independent seeded changes) from the
 seeds' notes, the regression matrix seeded/RESULTS.txt and the history notes below, and copies the
 history into each seed's meta.json."""
 import json, os, re
@@ -103,13 +103,28 @@ H = {
  'r7-C15-2': "initially missed: no map key / set element with TAB, CR, DEL or a non-printing character among the values (C06 had them); added, with the empty key",
  'r7-C19-2': "initially missed: no argument failing inside a special form under a handler; added a grammar leaf and a fixed program looking at what the handler receives",
  'r7-C20-2': "initially missed: a panic with a value that is no error was only required to be catchable; added panic(int) and panic(lisp vector), and the value must still be carried by the error",
+ # round 8 (as round 7: evaluated as built first)
+ 'r8-C01-1': "initially missed by C01 (C02's closures-over-loop-parameters reports the same mechanism): no loop whose iterations let their scope escape; added the loops-whose-scopes-escape family",
+ 'r8-C02-1': "initially missed: no code held as data and then evaluated; added two operations (quoted and list-built code with macro calls in operand position, kept with keep! and evaluated twice)",
+ 'r8-C03-2': "a change to Future.Deref (a deref that already waits is never woken): needs two derefs of one future waiting at once, which C03's sequential nests cannot produce; reported by C10 (free-running bodies block forever; its three-caller plans)",
+ 'r8-C07-2': "initially missed: every swap! of the shapes won its first round; added a swap! whose update function makes its own round stale (the change sleeps between rounds without looking at the context: reported as a hang on the virtual clock)",
+ 'r8-C08-1': "initially missed: every loop function had the parameter list [n]; added functions with a rest parameter (called with extra arguments) and functions whose only parameter is a rest parameter",
+ 'r8-C11-2': "initially missed and out of reach of the cooperative scheduler (the window lies between two statements without a synchronisation operation): the race pass got 8 evaluations dereferencing one completed future 3000 times each, compared with their solo results (sampled)",
+ 'r8-C14-2': "initially missed: values were built from Go (no source positions); every pair is now also written as two quoted literals in a program text read under a module name",
+ 'r8-C15-2': "initially missed: values were at most a few hundred bytes; added the long-values family (printed lengths from 1000 bytes to 1 MiB, several around 64 KiB)",
+ 'r8-C17-2': "initially missed: thrown values were strings; added a thrown datum written in another top-level form and one written on the lines after the throw",
+ 'r8-C18-2': "initially missed: no program used the macroexpand form; added 3 fixed programs whose expansions are asked for and not evaluated (the callback's (t! sym) expectation then fails)",
+ 'r8-C19-1': "initially missed: no macro whose expansion carries a list with metadata; added a fixed program",
+ 'r8-C19-2': "caught as built (the evaluator script could not place the demonstration, which lives in lib/core/nscore; confirmed after the script was corrected)",
+ 'r8-C20-1': "initially missed: no panic raised by the Go runtime itself; added (errors.As must still find the runtime.Error)",
+ 'r8-C20-2': "initially missed: every call was made under a live context; the first legal call of every signature is now repeated directly on the registered function value under a context that has already ended",
 }
 res = {}
 for l in open('/verif/seeded/RESULTS.txt'):
     n = l.split(' | ')[0].strip()
     res[n] = [m.group(1) for m in re.finditer(r'\| (C\d\d) rc=1', l)]
 out = []
-for rnd in ('r2', 'r3', 'r4', 'r5', 'r6', 'r7'):
+for rnd in ('r2', 'r3', 'r4', 'r5', 'r6', 'r7', 'r8'):
     out.append(f"\n**Round {rnd[1]}**\n\n| seed | what it does (first line of the author's notes) | reported by (own-property quick check, regression matrix) | history |\n|---|---|---|---|")
     for d in sorted(os.listdir('/verif/seeded')):
         if not d.startswith(rnd + '-'): continue
